@@ -1,0 +1,65 @@
+//! Verification hook, compiled only with the internal `__verif` feature: one in-process node of
+//! the HTTP server (router, handlers, shared state, HTTP policy client) whose outgoing requests
+//! leave through a caller-supplied `reqwest_middleware::Middleware` instead of a socket.
+use std::{path::PathBuf, sync::Arc};
+
+use tokio::sync::Semaphore;
+use uuid::Uuid;
+
+use crate::{
+    api::{PolytuneState, PolytuneStateInner},
+    policy_client::HttpClientBuilder,
+    router,
+};
+
+/// The state and the router of one server, as `server::service` builds them.
+pub struct Node {
+    state: PolytuneState,
+    router: axum::Router,
+}
+
+impl Node {
+    /// `transport` is the innermost middleware of the node's HTTP client: it sees every
+    /// outgoing request and decides what comes back.
+    pub fn new(
+        transport: Arc<dyn reqwest_middleware::Middleware>,
+        concurrency: usize,
+        tmp_dir: Option<PathBuf>,
+    ) -> Self {
+        let client = reqwest_middleware::ClientBuilder::new(reqwest::Client::new())
+            .with_arc(transport)
+            .build();
+        let state = PolytuneState::new(PolytuneStateInner {
+            client_builder: HttpClientBuilder {
+                client,
+                jwt_conf: None,
+            },
+            state_handles: Default::default(),
+            concurrency: Arc::new(Semaphore::new(concurrency)),
+            tmp_dir,
+        });
+        let mut api = aide::openapi::OpenApi::default();
+        let router = router::router(state.clone()).finish_api(&mut api);
+        Self { state, router }
+    }
+
+    /// The router all incoming requests go through.
+    pub fn router(&self) -> axum::Router {
+        self.router.clone()
+    }
+
+    /// What a graceful shutdown does.
+    pub async fn cancel_all(&self) {
+        self.state.cancel_all().await
+    }
+
+    /// Permits of the leader-concurrency semaphore that are free right now.
+    pub fn available_permits(&self) -> usize {
+        self.state.concurrency.available_permits()
+    }
+
+    /// Computations that currently have a state machine.
+    pub async fn live_computations(&self) -> Vec<Uuid> {
+        self.state.state_handles.read().await.keys().copied().collect()
+    }
+}
